@@ -431,14 +431,21 @@ def restart_setups(chk, drv, g):
                 if groups > 1:
                     case['simulations_side_by_side'] = groups
 
+                # ... or one simulation with a process that is only there for plotting, at any position of the communicator
+                plot = groups == 1 and (it + size) % 3 == 0
+                draw = (it + 1) % (size + 1) if plot else 0
+                if plot:
+                    case.update(plotThread=True, drawRank=draw)
+
                 def body():
                     world = MPI.COMM_WORLD
                     comm = world if groups == 1 else world.Split(world.Get_rank() // size, world.Get_rank())
-                    grid, consts, t = setupFromFile(folder, comm=comm, allocateSaveMemory=True)
+                    kw = {'plotThread': True, 'drawRank': draw} if plot else {}
+                    grid, consts, t = setupFromFile(folder, comm=comm, allocateSaveMemory=True, **kw)
                     lm = grid._layout_manager
                     return {'nprocs': [int(x) for x in lm.nProcs], 'shapes': {n: [int(x) for x in lm.getLayout(n).shape] for n in NAMES},
                             'own': int(np.prod(grid._f.shape))}
-                res = MPI.run(size * groups, body, policy='random', seed=it)
+                res = MPI.run(size * groups + (1 if plot else 0), body, policy='random', seed=it)
                 chk.count('restart set-up ranks=%d: %s' % (size, 'built' if res.ok else 'refused'))
                 chk.case(('restart-setup', tuple(npts), size), nontrivial=size > 1 and bool(V))
                 if not res.ok:
@@ -450,6 +457,13 @@ def restart_setups(chk, drv, g):
                         chk.fail('C20:setup-other-error', 'no factorisation exists, expected RuntimeError(%s), got %s' % (MSG, err[:160]), case)
                     continue
                 vals = res.values()
+                if plot:
+                    dv = vals[draw]
+                    vals = [v for r_, v in enumerate(vals) if r_ != draw]
+                    if dv['own'] != 0:
+                        chk.fail('C20:plot-rank-owns-data', 'after setupFromFile the process that is only there for plotting owns grid points', case,
+                                 actual=dv['shapes'])
+                        continue
                 if groups > 1 and vals[size:] != vals[:size]:
                     chk.fail('C20:invalid-grid', 'two simulations restarted side by side on equal communicators get different layouts', case,
                              actual=[v['nprocs'] for v in vals])
